@@ -116,6 +116,12 @@ class InitSegment(DashElement):
         if moov is None:
             self.elt.add_error('Failed to find moov box')
             return False
+        for name in ['mvhd', 'trak', 'trex']:
+            # see ISO 14496-12 sections 8.2.2, 8.3.1 and 8.8.3
+            if not self.elt.check_not_none(
+                    moov.find_child(name),
+                    msg=f'Failed to find mandatory {name} box in init segment: {self.url}'):
+                return False
         key_ids = set()
         self.dash_rep = DashRepresentation()
         self.dash_rep.process_moov(moov, key_ids)
